@@ -108,10 +108,16 @@ Section Ops.
     (* the accumulation primitive the code uses: [add_at] or [fancy_iadd] *)
     Variable accumulate : list vec -> list nat -> list vec -> list vec.
 
-    (* n = cross(tris[:,1] - tris[:,0], tris[:,2] - tris[:,0]); normalize_v3(n) *)
+    (* the right-hand normal of triangle t (not normalised) *)
     Definition face_cross (verts : list vec) (t : tri) : vec :=
       rh_normal (vnth verts (c0 t)) (vnth verts (c1 t)) (vnth verts (c2 t)).
-    Definition face_n (verts : list vec) (t : tri) : vec := nrm (face_cross verts t).
+    (* n = cross(normalize_v3(tris[:,1] - tris[:,0]), normalize_v3(tris[:,2] - tris[:,0]));
+       normalize_v3(n) *)
+    Definition face_n (verts : list vec) (t : tri) : vec :=
+      let p0 := vnth verts (c0 t) in
+      let p1 := vnth verts (c1 t) in
+      let p2 := vnth verts (c2 t) in
+      nrm (cross (nrm (vsub p1 p0)) (nrm (vsub p2 p0))).
 
     (* the three accumulation statements, on any per-triangle rows [rows] *)
     Definition accumulate3 (nverts : nat) (tris : list tri) (rows : list vec) : list vec :=
